@@ -8,8 +8,23 @@ import (
 	"github.com/bufbuild/bufverif/internal/bufx"
 )
 
-// Ten-line reproductions of the two findings in FINDINGS.md, independent of the check's machinery.
-// They only log what they observe (run: go test -tags verif -run Finding -v ./checks/c18).
+// Ten-line reproductions of the two genuine defects the check reports on the pinned tree, independent of
+// the check's machinery. They only log what they observe
+// (run: go test -tags verif -run Finding -v ./checks/c18).
+//
+// F9, signature srcinfo/extra-removed/field-options-root-without-option-locations:
+// internal/marksweeper.go removeLocationsFromSourceCodeInfo removes every FieldOptions location
+// (path ...,<field>,8) that has no *kept* descendant, also when it never had one: the brackets of
+// `[default = 5]` / `[json_name = "x"]` have a ...,8 location but their children live under ...,7 / ...,10.
+// So in every file with at least one rewritten option, the source info of fields nobody rewrote is removed
+// ("Source-info entries are removed exactly for the options that were rewritten").
+// Fix: only remove a root that has lost a descendant (count removed descendants in the trie too).
+//
+// F10, signature disable/field-only-rule-exempts-file-options:
+// override.go isFileOptionDisabledForFile does not skip disable rules that name a field, so
+// `disable: [{field: pkg.Msg.f}]` (no option, no path, no module) switches off every governed file option of
+// every file, overrides included, while modifyJsType reads the same rule as "exempt that one field".
+// Fix: `if disableRule.FieldOption() != Unspecified || disableRule.FieldName() != "" { continue }`.
 
 const findingProto = `syntax = "proto2";
 package acme.one.v1;
